@@ -194,12 +194,15 @@ def run(P, R, tier):
     check_transform(P, R, "wccn:WCCN.transform")
     # ---- Whitening --------------------------------------------------------------------
     f2, du2 = check_fit_common(P, R, "whitening:Whitening.fit", inv_of=[(("X",), "the data"), (("cov",), "the covariance matrix")])
+    n_centre = 0
     for st, t, v, k in stores(f2):
         if isinstance(t, ast.Attribute) and t.attr == "input_subtract":
+            n_centre += 1
             c = cone(du2, v, du2.stmt_of(st), interproc=False)
             ok = "X" in c.params and c.calls_any("mean")
             axis0 = any(isinstance(n, ast.Call) and src(n.func).split(".")[-1] == "mean" and any(kw.arg == "axis" and const_value(kw.value) == 0 for kw in n.keywords) for n in c.nodes)
             R.check(ok and axis0, "DEP.centre", f2.key, f"self.input_subtract = {src(v)}", "per-feature training mean", "input_subtract is not the per-feature mean of the training data (transformed data are not zero-mean)", st.lineno)
+    R.check(n_centre >= 1, "DEP.centre", f2.key, "fit stores self.input_subtract", "", "Whitening.fit no longer stores the training mean: transform does not centre the data (the whitened training data are not zero-mean)")
     check_transform(P, R, "whitening:Whitening.transform")
     from ..engines import dtype as _dt
     n_dt = _dt.check_function(P, R, "wccn:WCCN.fit", raw_params=("X",)) + _dt.check_function(P, R, "whitening:Whitening.fit", raw_params=("X",))
